@@ -24,7 +24,7 @@ def _api():
     return ints, objs, DiameterAnswer, ResultCodeAVP
 
 
-SHAPES = ("plain", "ebit", "mixed", "decoy-before", "decoy-after")
+SHAPES = ("plain", "ebit", "mixed", "decoy-before", "decoy-after", "generic")
 
 
 def _answer(api, w, shape):
@@ -34,6 +34,10 @@ def _answer(api, w, shape):
     rc = ResultCodeAVP(bytes(w))
     if shape == "plain":
         return DiameterAnswer(command_code=272, application_id=4, avps=[rc])
+    if shape == "generic":
+        # the Result-Code as a general-purpose AVP object (code 268, no vendor): the same AVP on the wire
+        from bromelia.base import DiameterAVP
+        return DiameterAnswer(command_code=272, application_id=4, avps=[SessionIdAVP(b"a;1;2"), DiameterAVP(code=268, flags=0x40, data=bytes(w))])
     if shape.startswith("decoy"):
         # another vendor's AVP that uses code 268 in its own code space (V flag, Vendor-ID) and a grouped Experimental-Result
         # next to the Result-Code: neither of them is the Result-Code
@@ -157,7 +161,7 @@ def run(rep):
     purity(rep)
     api = _api()
     rep.rule = ("V: all codes 0..65535 and 735 boundary 32-bit words, each through 5 integer and 5 answer-object "
-                "predicates on 5 answer shapes (plain; E bit set; Result-Code among other AVPs with other header flags; another vendor's AVP with code 268 before / after it, built and decoded); two answers classified concurrently with one preemption at every source line; T: seeded random 32-bit words validated by TLC. distinct = distinct words")
+                "predicates on 6 answer shapes (the Result-Code as a general-purpose AVP object; plain; E bit set; Result-Code among other AVPs with other header flags; another vendor's AVP with code 268 before / after it, built and decoded); two answers classified concurrently with one preemption at every source line; T: seeded random 32-bit words validated by TLC. distinct = distinct words")
     vecs, res = vectors.gen("Gen_Family", ["Types"], DEFS, "Vecs",
                             theorems=["\\A n \\in Small : Family(Word32(n)) = FamilyOfNat(n)",
                                       "\\A n \\in Small : SmallVal(Word32(n)) = n"],
